@@ -112,7 +112,7 @@ func checkC16(c *Case) *Outcome {
 	}
 	ns := c.NodeSpacing()
 	tol := func(a, b float64) bool {
-		return math.Abs(a-b) <= 1e-9*(1+math.Abs(a)+math.Abs(b)+ns*float64(len(l.Nodes)))
+		return math.Abs(a-b) <= 1e-9*(tolUnit()+math.Abs(a)+math.Abs(b)+ns*float64(len(l.Nodes)))
 	}
 	if !tol(minx, 0) {
 		return o.failf("leftmost node is at x=%v, expected 0", minx)
@@ -157,7 +157,7 @@ type ScaleCase struct {
 
 var propC17 = register(&Property{
 	ID: "C17",
-	Rule: "all graph families x {SinkColoring, VAlign, PackRight, BrandesKoepf default/forced} x {Straight, Polyline, Ortho} x sizes and spacings from a dyadic grid x factor 2^k, k in -3..6; " +
+	Rule: "all graph families x {SinkColoring, VAlign, PackRight, BrandesKoepf default/forced} x {Straight, Polyline, Ortho} x sizes and spacings from a dyadic grid x factor 2^k, k in -3..6 (two thirds of the cases) or -30..-10 / 10..30; " +
 		"oracle: Layout(c*sizes, c*spacings) == c*Layout(sizes, spacings), bit-exact; non-trivial = >=2 bands with >=2 nodes, >=2 distinct widths and a long edge",
 	New:   func() any { return &ScaleCase{} },
 	Gen:   func(rt *rapid.T, s *Stats) any { return genC17(rt, s) },
@@ -168,8 +168,7 @@ func genC17(rt *rapid.T, st *Stats) *ScaleCase {
 	dyadicOnly = true // exact power-of-two scaling is only claimed on values that keep the arithmetic exact
 	defer func() { dyadicOnly = false }()
 	maxN, maxM, _ := sizeRegime(rt, 930, 65, 5)
-	// no thin giants here: up to 64 copies of a job run under the race detector
-	_, ies, _ := genGraph(rt, GraphSpec{MaxN: maxN, MaxM: maxM, Families: allFam, Union: true, SelfLoops: true, Parallel: true, NoGiant: true})
+	_, ies, _ := genGraph(rt, GraphSpec{MaxN: maxN, MaxM: maxM, Families: allFam, Union: true, SelfLoops: true, Parallel: true})
 	c := &Case{Edges: toEdges(ies, nameScheme(rt))}
 	szMode := 0
 	if rapid.Bool().Draw(rt, "all_sized") {
@@ -177,7 +176,16 @@ func genC17(rt *rapid.T, st *Stats) *ScaleCase {
 	}
 	genOptions(rt, c, NodeIDs(c.Edges), OptSpec{CBs: allCB, Lays: allLay, Poss: fastPos, BKForced: true, Rts: []int{RtStraight, RtPolyline, RtOrtho},
 		Thorough: false, Virt: true, Sizes: szMode, NSZero: true, LSZero: true, DefaultsOK: false})
+	// "the same power of two": any. Small exponents mostly; a third of the cases use units far from pixels (2^-30 ..
+	// 2^30: metres, normalised coordinates, EMUs). All values stay dyadic with short mantissas and magnitudes between
+	// 1e-10 and 1e13, so the arithmetic stays exact. seeded/r6-m17 compares centres with an absolute 1e-6.
 	k := rapid.IntRange(-3, 6).Draw(rt, "k")
+	switch pick(rt, "k_range", 6) {
+	case 0:
+		k = rapid.IntRange(-30, -10).Draw(rt, "k_tiny")
+	case 1:
+		k = rapid.IntRange(10, 30).Draw(rt, "k_huge")
+	}
 	if k == 0 {
 		k = 1
 	}
@@ -189,7 +197,7 @@ func checkC17(sc *ScaleCase) *Outcome {
 	c := sc.Base
 	structuralClasses(c, o)
 	optionClasses(c, o)
-	if c.Pos == PosNS || c.Rt == RtSplines || c.NS == nil || c.LS == nil || sc.K < -3 || sc.K > 6 {
+	if c.Pos == PosNS || c.Rt == RtSplines || c.NS == nil || c.LS == nil || sc.K < -30 || sc.K > 30 {
 		return o.failf("bad case: outside C17's quantifier")
 	}
 	f := math.Ldexp(1, sc.K)
@@ -521,7 +529,8 @@ func genC15(rt *rapid.T, st *Stats) *ConcCase {
 	nj := rapid.IntRange(1, 8).Draw(rt, "jobs")
 	for i := 0; i < nj; i++ {
 		maxN, maxM, _ := sizeRegime(rt, 900, 100, 0)
-		n, ies, _ := genGraph(rt, GraphSpec{MaxN: maxN, MaxM: maxM, Families: allFam, Union: true, SelfLoops: true, Parallel: true})
+		// no thin giants here: up to 64 copies of a job run under the race detector
+		n, ies, _ := genGraph(rt, GraphSpec{MaxN: maxN, MaxM: maxM, Families: allFam, Union: true, SelfLoops: true, Parallel: true, NoGiant: true})
 		c := &Case{Edges: toEdges(ies, nid)}
 		genOptions(rt, c, NodeIDs(c.Edges), OptSpec{CBs: detCB, Lays: allLay, Poss: posFor(n, len(ies), allPos), BKForced: true, Rts: allRt,
 			Thorough: true, ThoroughLow: true, Virt: true, Sizes: 0, NSZero: true, LSZero: true, DefaultsOK: true})
